@@ -1,0 +1,153 @@
+//go:build verif
+
+package s2
+
+import (
+	"github.com/golang/geo/s1"
+)
+
+// This file exports internal stages and read-only views of internal state for
+// verification builds (build tag "verif"). Nothing here changes behaviour.
+
+// VerifTriageSign exposes triageSign.
+func VerifTriageSign(a, b, c Point) Direction { return triageSign(a, b, c) }
+
+// VerifStableSign exposes stableSign.
+func VerifStableSign(a, b, c Point) Direction { return stableSign(a, b, c) }
+
+// VerifExactSign exposes exactSign.
+func VerifExactSign(a, b, c Point, perturb bool) Direction { return exactSign(a, b, c, perturb) }
+
+// VerifExpensiveSign exposes expensiveSign.
+func VerifExpensiveSign(a, b, c Point) Direction { return expensiveSign(a, b, c) }
+
+// VerifTriageCompareCosDistances exposes triageCompareCosDistances.
+func VerifTriageCompareCosDistances(x, a, b Point) int { return triageCompareCosDistances(x, a, b) }
+
+// VerifTriageCompareSin2Distances exposes triageCompareSin2Distances.
+func VerifTriageCompareSin2Distances(x, a, b Point) int { return triageCompareSin2Distances(x, a, b) }
+
+// VerifTriageCompareCosDistance exposes triageCompareCosDistance.
+func VerifTriageCompareCosDistance(x, y Point, r2 float64) int {
+	return triageCompareCosDistance(x, y, r2)
+}
+
+// VerifTriageCompareSin2Distance exposes triageCompareSin2Distance.
+func VerifTriageCompareSin2Distance(x, y Point, r2 float64) int {
+	return triageCompareSin2Distance(x, y, r2)
+}
+
+// VerifTriageSignDotProd exposes triageSignDotProd.
+func VerifTriageSignDotProd(a, b Point) int { return triageSignDotProd(a, b) }
+
+// VerifIntersectionStable exposes intersectionStable.
+func VerifIntersectionStable(a0, a1, b0, b1 Point) (Point, bool) {
+	return intersectionStable(a0, a1, b0, b1)
+}
+
+// VerifIntersectionExact exposes intersectionExact.
+func VerifIntersectionExact(a0, a1, b0, b1 Point) Point { return intersectionExact(a0, a1, b0, b1) }
+
+// VerifBruteForceContainsPoint exposes Loop.bruteForceContainsPoint.
+func (l *Loop) VerifBruteForceContainsPoint(p Point) bool { return l.bruteForceContainsPoint(p) }
+
+// VerifIndex returns the loop's internal ShapeIndex.
+func (l *Loop) VerifIndex() *ShapeIndex { return l.index }
+
+// VerifIndex returns the polygon's internal ShapeIndex.
+func (p *Polygon) VerifIndex() *ShapeIndex { return p.index }
+
+// VerifContainsBruteForce exposes containsBruteForce.
+func VerifContainsBruteForce(shape Shape, p Point) bool { return containsBruteForce(shape, p) }
+
+// VerifCrosserState returns the mutable chain state of an EdgeCrosser.
+func (e *EdgeCrosser) VerifCrosserState() (c Point, acb Direction) { return e.c, e.acb }
+
+// VerifMinUpdateDistanceMaxError exposes minUpdateDistanceMaxError.
+func VerifMinUpdateDistanceMaxError(d s1.ChordAngle) float64 { return minUpdateDistanceMaxError(d) }
+
+// VerifMinUpdateInteriorDistanceMaxError exposes minUpdateInteriorDistanceMaxError.
+func VerifMinUpdateInteriorDistanceMaxError(d s1.ChordAngle) float64 {
+	return minUpdateInteriorDistanceMaxError(d)
+}
+
+// VerifTurningAngleMaxError exposes Loop.turningAngleMaxError.
+func (l *Loop) VerifTurningAngleMaxError() float64 { return l.turningAngleMaxError() }
+
+// VerifCellIDFromPoint exposes cellIDFromPoint.
+func VerifCellIDFromPoint(p Point) CellID { return cellIDFromPoint(p) }
+
+// VerifXYZToFaceSiTi exposes xyzToFaceSiTi.
+func VerifXYZToFaceSiTi(p Point) (face int, si, ti uint32, level int) { return xyzToFaceSiTi(p) }
+
+// VerifClippedShape is a read-only copy of one clippedShape of an index cell.
+type VerifClippedShape struct {
+	ShapeID        int32
+	ContainsCenter bool
+	Edges          []int
+}
+
+// VerifIndexCell is a read-only copy of one index cell.
+type VerifIndexCell struct {
+	ID     CellID
+	InMap  bool
+	Shapes []VerifClippedShape
+}
+
+// VerifIndexState is a read-only copy of the internal state of a ShapeIndex.
+// It does not force pending updates to be applied.
+type VerifIndexState struct {
+	Status              int32
+	PendingAdditionsPos int32
+	NextID              int32
+	NumShapes           int
+	MapLen              int
+	Cells               []VerifIndexCell
+}
+
+// VerifIndexDump returns a copy of the current internal state of the index
+// without triggering or synchronising with updates.
+func (s *ShapeIndex) VerifIndexDump() VerifIndexState {
+	st := VerifIndexState{
+		Status:              s.status,
+		PendingAdditionsPos: s.pendingAdditionsPos,
+		NextID:              s.nextID,
+		NumShapes:           len(s.shapes),
+		MapLen:              len(s.cellMap),
+	}
+	for _, id := range s.cells {
+		c := VerifIndexCell{ID: id}
+		if cell, ok := s.cellMap[id]; ok && cell != nil {
+			c.InMap = true
+			for _, cs := range cell.shapes {
+				c.Shapes = append(c.Shapes, VerifClippedShape{
+					ShapeID:        cs.shapeID,
+					ContainsCenter: cs.containsCenter,
+					Edges:          append([]int(nil), cs.edges...),
+				})
+			}
+		}
+		st.Cells = append(st.Cells, c)
+	}
+	return st
+}
+
+// VerifEdgeQueryOptions is a copy of the option values currently held by a query.
+type VerifEdgeQueryOptions struct {
+	MaxResults       int
+	DistanceLimit    s1.ChordAngle
+	MaxError         s1.ChordAngle
+	IncludeInteriors bool
+	UseBruteForce    bool
+}
+
+// VerifOptions returns the option values currently held by the query.
+func (e *EdgeQuery) VerifOptions() VerifEdgeQueryOptions {
+	return VerifEdgeQueryOptions{
+		MaxResults:       e.opts.maxResults,
+		DistanceLimit:    e.opts.distanceLimit,
+		MaxError:         e.opts.maxError,
+		IncludeInteriors: e.opts.includeInteriors,
+		UseBruteForce:    e.opts.useBruteForce,
+	}
+}
